@@ -399,7 +399,19 @@ func (s *Scanner) ScanTopologyExact(topo *topology.FunctionTopology, funcName st
 		return nil, nil
 	}
 
+	if topo == nil {
+		return nil, nil
+	}
+	topoHash := detection.GenerateTopologyHash(topo)
+
 	for _, sig := range s.db.Signatures {
+		// Exact mode means the same topology hash, as in the embedded backend. Without this
+		// check a small function is reported against the first unrelated signature that
+		// happens to score >= 0.99 (equal block count, no calls), and its own signature,
+		// further down the list, is never named.
+		if sig.TopologyHash != topoHash {
+			continue
+		}
 		// Using a strict 0.0 tolerance. We are looking for twins, not cousins.
 		result := detection.MatchSignature(topo, funcName, sig, 0.0)
 		if result.Confidence >= 0.99 {
